@@ -114,5 +114,8 @@ theorem apply_allow (st st' : Token.State) (c : Token.Ctx) (op : Token.Op) (evs 
     cases h
     obtain ⟨_, rfl⟩ := Cgp.Props.C12.spendBalance_ok h1
     exact Or.inl (spendAllowance_le h0 f s al' hal hp)
+  | upgradeMigrate =>
+    cases (Token.apply_upgradeMigrate_ok _ _ _ h).1
+    exact Or.inl (allowLe_of_eq rfl f s al' hal hp)
 
 end Cgp.Proofs.C07
